@@ -3,12 +3,11 @@ From TxVerif Require Import Lib.Bytes Lib.Verdict Spec.C20 Model.AddrMap.
 Import ListNotations.
 
 (* k_flags: the two open finding predicates as computed by the Python mirror
-   (key_collision, stale_lookup); a mirror that disagrees counts as a difference *)
-Record case := { k_ops : list op; k_obs : list (list obs); k_flags : bool * bool }.
+   [key_collision; stale_lookup]; a mirror that disagrees counts as a difference *)
+Record case := { k_ops : list op; k_obs : list (list obs); k_flags : list bool }.
 
-Definition flags_of (h : list op) : bool * bool := (key_collision h, stale_lookup h).
-Definition flags_eqb (a b : bool * bool) : bool :=
-  let '(a1, a2) := a in let '(b1, b2) := b in Bool.eqb a1 b1 && Bool.eqb a2 b2.
+Definition flags_of (h : list op) : list bool := [key_collision h; stale_lookup h].
+Definition flags_eqb (a b : list bool) : bool := list_eqb Bool.eqb a b.
 
 Definition check (k : case) : verdict :=
   if negb (in_scope (k_ops k)) then VSkip else
